@@ -563,6 +563,8 @@ def _from_attributes(p):
             kw["retain_names"] = _flag(p["rn"])
         via = p.get("via", "function")
         exps = given[0] if given else [list(r) for r in p["rows"]]
+        if p.get("raw_rows"):
+            exps = [[int(x) for x in r] for r in p["raw_rows"]]     # values TLC's integers cannot carry, as decimal strings
         # the forms the `names` argument may take; "string" / "omitted" denote q0..q(n-1) and are used only for those
         form = p.get("names_form", "tuple")
         standard = list(p["names"]) == list(range(len(p["names"])))
